@@ -65,6 +65,83 @@ inductive Val where
   | list (vs : List Val)
   deriving Repr, Inhabited
 
+/-! ### decidable equality of values (the deriving handler does not support nested inductives) -/
+
+mutual
+def Val.decEq : (a b : Val) → Decidable (a = b)
+  | .pod x1, .pod x2 => if h : x1 = x2 then isTrue (by rw [h]) else isFalse (by intro h'; cases h'; exact h rfl)
+  | .pod x1, .str x2 => isFalse (by intro h; cases h)
+  | .pod x1, .bools x2 => isFalse (by intro h; cases h)
+  | .pod x1, .none => isFalse (by intro h; cases h)
+  | .pod x1, .some x2 => isFalse (by intro h; cases h)
+  | .pod x1, .alt i2 x2 => isFalse (by intro h; cases h)
+  | .pod x1, .list xs2 => isFalse (by intro h; cases h)
+  | .str x1, .pod x2 => isFalse (by intro h; cases h)
+  | .str x1, .str x2 => if h : x1 = x2 then isTrue (by rw [h]) else isFalse (by intro h'; cases h'; exact h rfl)
+  | .str x1, .bools x2 => isFalse (by intro h; cases h)
+  | .str x1, .none => isFalse (by intro h; cases h)
+  | .str x1, .some x2 => isFalse (by intro h; cases h)
+  | .str x1, .alt i2 x2 => isFalse (by intro h; cases h)
+  | .str x1, .list xs2 => isFalse (by intro h; cases h)
+  | .bools x1, .pod x2 => isFalse (by intro h; cases h)
+  | .bools x1, .str x2 => isFalse (by intro h; cases h)
+  | .bools x1, .bools x2 => if h : x1 = x2 then isTrue (by rw [h]) else isFalse (by intro h'; cases h'; exact h rfl)
+  | .bools x1, .none => isFalse (by intro h; cases h)
+  | .bools x1, .some x2 => isFalse (by intro h; cases h)
+  | .bools x1, .alt i2 x2 => isFalse (by intro h; cases h)
+  | .bools x1, .list xs2 => isFalse (by intro h; cases h)
+  | .none, .pod x2 => isFalse (by intro h; cases h)
+  | .none, .str x2 => isFalse (by intro h; cases h)
+  | .none, .bools x2 => isFalse (by intro h; cases h)
+  | .none, .none => isTrue rfl
+  | .none, .some x2 => isFalse (by intro h; cases h)
+  | .none, .alt i2 x2 => isFalse (by intro h; cases h)
+  | .none, .list xs2 => isFalse (by intro h; cases h)
+  | .some x1, .pod x2 => isFalse (by intro h; cases h)
+  | .some x1, .str x2 => isFalse (by intro h; cases h)
+  | .some x1, .bools x2 => isFalse (by intro h; cases h)
+  | .some x1, .none => isFalse (by intro h; cases h)
+  | .some x1, .some x2 =>
+    match Val.decEq x1 x2 with
+    | isTrue h => isTrue (by rw [h])
+    | isFalse h => isFalse (by intro h'; cases h'; exact h rfl)
+  | .some x1, .alt i2 x2 => isFalse (by intro h; cases h)
+  | .some x1, .list xs2 => isFalse (by intro h; cases h)
+  | .alt i1 x1, .pod x2 => isFalse (by intro h; cases h)
+  | .alt i1 x1, .str x2 => isFalse (by intro h; cases h)
+  | .alt i1 x1, .bools x2 => isFalse (by intro h; cases h)
+  | .alt i1 x1, .none => isFalse (by intro h; cases h)
+  | .alt i1 x1, .some x2 => isFalse (by intro h; cases h)
+  | .alt i1 x1, .alt i2 x2 =>
+    if hi : i1 = i2 then
+      match Val.decEq x1 x2 with
+      | isTrue h => isTrue (by rw [hi, h])
+      | isFalse h => isFalse (by intro h'; cases h'; exact h rfl)
+    else isFalse (by intro h'; cases h'; exact hi rfl)
+  | .alt i1 x1, .list xs2 => isFalse (by intro h; cases h)
+  | .list xs1, .pod x2 => isFalse (by intro h; cases h)
+  | .list xs1, .str x2 => isFalse (by intro h; cases h)
+  | .list xs1, .bools x2 => isFalse (by intro h; cases h)
+  | .list xs1, .none => isFalse (by intro h; cases h)
+  | .list xs1, .some x2 => isFalse (by intro h; cases h)
+  | .list xs1, .alt i2 x2 => isFalse (by intro h; cases h)
+  | .list xs1, .list xs2 =>
+    match Val.decEqList xs1 xs2 with
+    | isTrue h => isTrue (by rw [h])
+    | isFalse h => isFalse (by intro h'; cases h'; exact h rfl)
+def Val.decEqList : (a b : List Val) → Decidable (a = b)
+  | [], [] => isTrue rfl
+  | [], _ :: _ => isFalse (by intro h; cases h)
+  | _ :: _, [] => isFalse (by intro h; cases h)
+  | x :: xs, y :: ys =>
+    match Val.decEq x y, Val.decEqList xs ys with
+    | isTrue h1, isTrue h2 => isTrue (by rw [h1, h2])
+    | isFalse h1, _ => isFalse (by intro h'; cases h'; exact h1 rfl)
+    | _, isFalse h2 => isFalse (by intro h'; cases h'; exact h2 rfl)
+end
+
+instance : DecidableEq Val := Val.decEq
+
 inductive Err where
   | short | badBool | badIndex
   deriving Repr, DecidableEq, Inhabited
